@@ -300,3 +300,43 @@ def merge_verbatim_rule(crate, prop, rule="C05.R11"):
     r.inst(fn="export::merge", bodies=len(bodies), calls_examined=n, rewriting_calls=len(r.findings))
     r.floor = 1
     return r
+
+
+def declaration_blank_line_rule(crate, prop, rule="C05.R13"):
+    """merge() finds the declarations of a file by cutting at empty lines.  Whatever produces the text of one declaration -
+    the derive, a `#[ts(type = "..")]` override copied verbatim, a hand-written `impl TS` - the place where that text enters a
+    file must make sure it contains none."""
+    r = Result(rule, "in generate_decl() the text of `T::decl()` passes a blank-line elimination that runs to a fixpoint (`while s.contains(\"\\n\\n\") { s = s.replace(\"\\n\\n\", ..) }`) before it is appended to the file text, so that no declaration can be cut in two when another type is merged into the same file later")
+    b = crate.body("export::generate_decl")
+    if b is None:
+        r.fail(prop, "anchor-missing export::generate_decl", "not found")
+        return r
+    pushes = [(blk, t) for blk, t in b.calls() if not b.is_cleanup(blk) and fn_matches(t, r"String::push_str$")]
+    decl_pushes = []
+    for blk, t in pushes:
+        org = origins(b, op_local(t["args"][1]), identity=M.IDENTITY_CALLS)
+        if any(o["kind"] == "call" and fn_matches(o["t"], r"TS::decl$", r"TS::decl_concrete$") for o in org):
+            decl_pushes.append((blk, t, org))
+    if not decl_pushes:
+        r.fail(prop, "anchor-missing decl push", "generate_decl() does not append T::decl()", b.file(), b.line())
+    loop_test = any(fn_matches(t, r"str::<impl str>::contains$") and (op_const(t["args"][1]) or {}).get("str") == "\n\n" for blk, t in b.calls() if not b.is_cleanup(blk))
+    for blk, t, org in decl_pushes:
+        reps = [o for o in org if o["kind"] == "call" and fn_matches(o["t"], r"str::<impl str>::replace$") and (op_const(o["t"]["args"][1]) or {}).get("str") == "\n\n"]
+        rep_ok = False
+        for o in reps:
+            rc = op_const(o["t"]["args"][2]) or {}
+            rep = rc.get("str")
+            if rep is None and op_local(o["t"]["args"][2]) is not None:
+                for oo in origins(b, op_local(o["t"]["args"][2]), identity=M.IDENTITY_CALLS):
+                    if oo["kind"] == "const" and (oo.get("c") or {}).get("str") is not None:
+                        rep = oo["c"]["str"]
+            if rep is not None and "\n\n" not in rep and (loop_test or ("\n\n" not in rep + rep and not (rep.endswith("\n") or rep.startswith("\n")))):
+                rep_ok = True
+        f, l = M.user_span(t["span"])
+        r.inst(fn=b.path, appended_text_from=sorted({M.callee(o["t"]) or "?" for o in org if o["kind"] == "call"}), blank_lines_eliminated=rep_ok, to_fixpoint=loop_test)
+        if not rep_ok:
+            r.fail(prop, "declaration-may-contain-blank-line export::generate_decl",
+                   "T::decl() is appended as it is: a field with `#[ts(type = \"{\\n\\n  a: number }\")]` puts an empty line inside the declaration, and when `Zzz` and `Aaa` are exported into the same file afterwards, merge() cuts it there and inserts `export type Zzz` in the middle (the opposite export order gives a well-formed file)",
+                   f, l)
+    r.floor = 1
+    return r
